@@ -342,6 +342,27 @@ class Ctx:
         return all(o["ok"] for o in self.obligations)
 
 
+def lean_extra(ctx, module, names=None):
+    """audit further theorems (all of a Props module, or the named ones) for this property"""
+    ok, out = lake_build([module])
+    ctx.oblige("lake build " + module, ok, "build", None if ok else out[-2000:])
+    if not ok:
+        return
+    allnames = theorems_in(module.replace(".", "/") + ".lean")
+    if names is None:
+        names = allnames
+    for n in names:
+        if n not in allnames:
+            ctx.oblige("theorem %s exists in %s" % (n, module), False, "theorem")
+    names = [n for n in names if n in allnames]
+    res, text, rc = audit_axioms(module, names)
+    for n in names:
+        axs = res.get(n)
+        good = axs is not None and set(axs) <= ALLOWED_AXIOMS
+        ctx.oblige("theorem %s (axioms: %s)" % (n, "missing from audit output" if axs is None else ",".join(axs) or "none"),
+                   good, "theorem", None if good else text[-1500:])
+
+
 def write_if_changed(path, text):
     if os.path.exists(path) and open(path).read() == text:
         return False
